@@ -252,7 +252,7 @@ func (s *Session) setStorageCallbacks() {
 	})
 
 	s.Router.HandleIncoming(simplefixgo.AllMsgTypes, func(msg []byte) bool {
-		if s.state != WaitingLogonAnswer && s.state != WaitingLogon {
+		if state := s.currentState(); state != WaitingLogonAnswer && state != WaitingLogon {
 			seqNum, err := fix.ValueByTag(msg, strconv.Itoa(s.Tags.MsgSeqNum))
 			if err != nil {
 				return true
@@ -396,7 +396,7 @@ func (s *Session) Run() (err error) {
 			return true
 		}
 
-		switch s.state {
+		switch s.currentState() {
 		case WaitingLogon:
 			s.LogonSettings = &LogonSettings{
 				HeartBtInt:      incomingLogon.HeartBtInt(),
@@ -458,7 +458,7 @@ func (s *Session) Run() (err error) {
 			return true
 		}
 
-		switch s.state {
+		switch s.currentState() {
 		case WaitingLogoutAnswer:
 			s.changeState(ReceivedLogoutAnswer, true)
 			s.changeState(WaitingLogon, true)
@@ -495,7 +495,7 @@ func (s *Session) Run() (err error) {
 			return true
 		}
 
-		if s.state == WaitingTestReqAnswer {
+		if s.currentState() == WaitingTestReqAnswer {
 			// reset SuccessfulLogged statue without event trigger
 			s.changeState(SuccessfulLogged, false)
 		}
@@ -573,7 +573,7 @@ func (s *Session) start() error {
 
 	s.Router.HandleIncoming(simplefixgo.AllMsgTypes, func(msg []byte) bool {
 		incomingMsgTimer.Refresh()
-		if s.state == WaitingTestReqAnswer {
+		if s.currentState() == WaitingTestReqAnswer {
 			s.changeState(SuccessfulLogged, false)
 		}
 
@@ -600,7 +600,7 @@ func (s *Session) start() error {
 				continue
 			}
 
-			if s.state == WaitingTestReqAnswer {
+			if s.currentState() == WaitingTestReqAnswer {
 				s.changeState(Disconnect, true)
 				return
 			}
@@ -714,6 +714,14 @@ func (s *Session) send(msg messages.Message) error {
 
 func (s *Session) sendWithErrorCheck(msg messages.Message) {
 	s.HandlerError(s.send(msg))
+}
+
+// currentState returns the logon state; every read outside changeState goes through it.
+func (s *Session) currentState() LogonState {
+	s.stateMu.RLock()
+	defer s.stateMu.RUnlock()
+
+	return s.state
 }
 
 func (s *Session) IsLogged() bool {
